@@ -103,6 +103,11 @@ func verifC05Permute(entries []verifC05Entry) []verifC05Entry {
 }
 
 func verifC05History(k int, fetchIdx int, symPids, symOffsets bool) {
+	verifC05HistoryKinds(k, fetchIdx, symPids, symOffsets, 0)
+}
+
+// firstKind: lowest batch kind used (1 = transactional batches and markers only)
+func verifC05HistoryKinds(k int, fetchIdx int, symPids, symOffsets bool, firstKind int) {
 	pids := [2]int64{7, 9}
 	if symPids {
 		pids = [2]int64{verifNondetInt64("pidA"), verifNondetInt64("pidB")}
@@ -119,7 +124,7 @@ func verifC05History(k int, fetchIdx int, symPids, symOffsets bool) {
 	// the history
 	batches := make([]verifC05Batch, k)
 	for i := range batches {
-		batches[i].kind = verifChoose(verifC05NumKinds)
+		batches[i].kind = firstKind + verifChoose(verifC05NumKinds-firstKind)
 		if i > 0 { // the first batch is producer A's without loss of generality
 			batches[i].prod = verifChoose(2)
 		}
@@ -245,7 +250,11 @@ func verifC05OffsetIs(r *Record, off int64) bool {
 // Histories of k batches fetched from their start.
 func VerifC05_histories() {
 	if verifThorough() {
-		verifC05History(4, 0, true, verifChoose(2) == 1)
+		if verifChoose(2) == 0 {
+			verifC05HistoryKinds(4, 0, false, false, 1) // k=4: transactional data and markers only
+		} else {
+			verifC05History(3, 0, true, false)
+		}
 	} else {
 		verifC05History(3, 0, false, false)
 	}
@@ -275,8 +284,6 @@ func VerifC05_hostile() {
 	pids := [2]int64{7, 9}
 	base := int64(1 << 20)
 	if verifThorough() {
-		pids = [2]int64{verifNondetInt64("pidA"), verifNondetInt64("pidB")}
-		verifAssume(pids[0] != pids[1])
 		base = verifNondetInt64("base")
 		verifAssume(verifAnd(base >= 0, base < 1<<62))
 	}
